@@ -373,6 +373,20 @@ def designed_cases():
             out.append({"fam": "Remediation", "cfg": "designed", "scenario": sc, "devs": [], "model": None, "id": vf.case_id(sc)})
     sc = json.loads(COMBINED_WITNESS)
     out.append({"fam": "Remediation", "cfg": "designed", "scenario": sc, "devs": [], "model": None, "id": vf.case_id(sc)})
+    # Maven bulk update: one package required in <dependencies> and in <dependencyManagement> at different versions; each
+    # declaration moves upward from its own version by at most the level (seeded change C11-H: a suggestion cached per
+    # package handed the second declaration the version computed for the first)
+    for lvl in ("patch", "minor", "major"):
+        for first, second in (("2.1.0", "1.0.0"), ("1.0.0", "2.1.0"), ("1.0.0", "1.0.1")):
+            for swap in (False, True):
+                uni = [{"name": "pkg:lib", "versions": [{"v": v, "deps": [], "latest": v == "3.0.0"}
+                                                         for v in ("1.0.0", "1.0.1", "1.0.2", "1.4.0", "2.1.0", "2.1.1", "2.3.0", "3.0.0")]},
+                       {"name": "pkg:other", "versions": [{"v": "1.0.0", "deps": [], "latest": True}]}]
+                man = [{"name": "pkg:lib", "req": first, "group": "mgmt" if swap else ""},
+                       {"name": "pkg:lib", "req": second, "group": "" if swap else "mgmt"},
+                       {"name": "pkg:other", "req": "1.0.0", "group": ""}]
+                sc = {"eco": "Maven", "universe": uni, "manifest": man, "vulns": [], "opts": dict(base_opts("maven-update"), levels={"": lvl})}
+                out.append({"fam": "Remediation", "cfg": "designed", "scenario": sc, "devs": [], "model": None, "id": vf.case_id(sc), "notrace": True})
     # npm: one package declared plainly and through an alias, both in devDependencies. Before the repair the reader kept
     # whichever declaration Go's map iteration visited last, so each witness is replayed several times (field "rep" is
     # ignored by the harness; it only makes the case ids differ)
@@ -495,6 +509,11 @@ def run(prop):
                 continue
             ck.violation("%s [%s%s] %s" % (prop, f["kind"], (" = class of finding " + fid + " (not listed open)") if fid else "", f["what"]),
                          {"case": c, "finding": f, "stats": st})
+        if c.get("notrace"):
+            # manifests that require one package twice are outside the domain of RemediationTrace.tla (its manifests are
+            # functions of the package name): judged by the harness oracle only
+            ck.cov["cases_outside_trace_domain"] = ck.cov.get("cases_outside_trace_domain", 0) + 1
+            continue
         (bad_traces if unexcused else good_traces).append(o)
         if st["updates"] > 0 and len(ck.cov["samples"]) < 4 and (o["i"] % 97 == 0 or not ck.cov["samples"]):
             ck.sample({"case_id": c["id"], "cfg": c["cfg"], "scenario": c["scenario"], "trace": o["trace"]})
